@@ -25,6 +25,8 @@ func checkC18(r *core.Run) {
 	r.Rule("E6-field: every field of each module's GenesisState is stored by ExportGenesis and read by InitGenesis")
 	r.Rule("E6-all: every list field of GenesisState is exported as the unmodified result of a keeper getter whose iterator loop appends every record, and imported by a loop that persists every element")
 	r.Rule("E6-param: every parameter key registered in ParamSetPairs is read by the keeper's GetParams (exported) — InitGenesis imports through SetParamSet")
+	r.Rule("T-validate-map: each duplicate-index loop of a GenesisState.Validate consults the map it fills (a module must accept the state it exports)")
+	ruleValidateMaps(r, "T-validate-map")
 	r.Assume(aDeps)
 	r.Assume(aCG)
 	mods := []string{"did", "market", "model", "node", "order", "sao"}
